@@ -58,4 +58,10 @@ func init() {
 		Old: "\tnetworkLen := resources.NewMailboxesLength(network)\n\tconstants := makeConstants(c)\n\tfd := getFailureDetector(c)", New: "\tnetworkLen := resources.NewMailboxesLength(newNetwork(self, c))\n\tconstants := makeConstants(c)\n\tfd := getFailureDetector(c)", Expect: "getClientCtx"})
 	seed(Seed{Name: "raft-client-netlen-of-fresh-network", Prop: "C09", Rule: "NETLEN-WIRING", File: "systems/raftkvs/bootstrap/client.go",
 		Old: "\tnetLen := resources.NewMailboxesLength(net)", New: "\tnetLen := resources.NewMailboxesLength(newNetwork(self, c))", Expect: "newClientCtx"})
+	seed(Seed{Name: "backup-returns-to-rcvmsg", Prop: "C14", Rule: "PB-DECISION", File: "systems/pbkvs/pbkvs.tla",
+		Old: "                await fd[resp.to];\n            };\n            goto replicaLoop;", New: "                await fd[resp.to];\n            };\n            goto rcvMsg;", Expect: "label-graph"})
+	seed(Seed{Name: "stability-over-pending-clients-only", Prop: "C16", Rule: "SYS-DECISION", File: "systems/replicatedkv/replicated_kv.tla",
+		Old: "                clientsIter := liveClients;", New: "                clientsIter := pendingClients;", Expect: "stability-over-all-live-clients"})
+	seed(Seed{Name: "stable-request-not-popped", Prop: "C16", Rule: "SYS-DECISION", File: "systems/replicatedkv/replicated_kv.tla",
+		Old: "                      pendingRequests[nextClient] := Tail(pendingRequests[nextClient]);\n", New: "", Expect: "pops-the-stable-request"})
 }
